@@ -106,6 +106,7 @@ class Facts:
             _inline_unknown_helpers(d, self.inlined)
         self.spliced = {}
         if desugar:
+            _inline_local_closure_calls(d, self.spliced)
             _desugar_combinators(d, self.spliced)
         self.threaded = [f["id"] for f in d["functions"] if _thread_known_variants(f)]
         for f in d["functions"]:
@@ -1245,6 +1246,65 @@ _COMBINATORS = {
     "std::result::Result::<T, E>::err": (RES, {0: _A(OPT, "None"), 1: _A(OPT, "Some", ("payload",))}),
 }
 _VARIANTS = {OPT: ["None", "Some"], RES: ["Ok", "Err"]}
+
+
+def _inline_local_closure_calls(d, record, max_blocks=1500):
+    """`let helper = |a, b| ..; helper(x, y)`: a closure bound to a local and called directly is a local function.  Its body is
+    inlined at every direct call site (`Fn::call(&helper, (x, y))` resolved to the closure), the environment reference and the
+    elements of the argument tuple bound to its parameters, exactly as a helper `fn` is inlined; the closures defined inside
+    it become children of the caller.  The closure stays a function of the program when it is also used as a value.
+    (Part of the normalised view only; today's tree has no such call.)"""
+    by_id = {}
+    for f in d["functions"]:
+        by_id.setdefault(f["id"], []).append(f)
+    for raw in d["functions"]:
+        home = set([raw["id"]] + list(raw.get("inlined", [])))
+        i = 0
+        while i < len(raw["blocks"]) and len(raw["blocks"]) < max_blocks:
+            blk = raw["blocks"][i]
+            i += 1
+            t = blk["term"]
+            if t["t"] != "call" or blk.get("cleanup") or not re.search(r"ops::(Fn::call|FnMut::call_mut|FnOnce::call_once)$", t.get("callee") or ""):
+                continue
+            gs = by_id.get(t.get("resolved") or "", [])
+            if len(gs) != 1:
+                continue
+            graw = gs[0]
+            if graw is raw or graw["kind"] != "Closure" or graw.get("coroutine") or graw.get("parent") not in home or len(t["args"]) != 2:
+                continue
+            a1 = t["args"][1]
+            tl = a1["pl"]["l"] if a1.get("k") in ("move", "copy") and not a1["pl"]["p"] else None
+            tup = [st for st in blk["st"] if st["s"] == "assign" and st["pl"] == {"l": tl, "p": []} and st["rv"]["rv"] == "agg" and st["rv"].get("agg") == "tuple"]
+            if tl is None or len(tup) != 1 or len(tup[0]["rv"]["ops"]) != graw["argc"] - 1:
+                continue
+            loff, boff = len(raw["locals"]), len(raw["blocks"])
+            line = t.get("line", 0)
+            blk["st"].append({"s": "assign", "pl": {"l": loff + 1, "p": []}, "rv": {"rv": "use", "op": t["args"][0]}, "line": line, "inl": graw["id"]})
+            for k, a in enumerate(tup[0]["rv"]["ops"]):
+                blk["st"].append({"s": "assign", "pl": {"l": loff + 2 + k, "p": []}, "rv": {"rv": "use", "op": a}, "line": line, "inl": graw["id"]})
+            ret_to, dest = t.get("to"), t["dest"]
+            blk["term"] = {"t": "goto", "to": boff, "line": line, "exp": t.get("exp", False), "inl_call": graw["id"]}
+            raw["locals"] = raw["locals"] + list(graw["locals"])
+            for nm in graw["names"]:
+                raw["names"].append({"name": nm["name"], "pl": _remap(nm["pl"], loff, boff)})
+            direct = not dest["p"]
+            for gb in graw["blocks"]:
+                nb = _remap(gb, loff, boff)
+                if nb["term"]["t"] == "return":
+                    if not direct:
+                        nb["st"].append({"s": "assign", "pl": dest, "rv": {"rv": "use", "op": {"k": "move", "pl": {"l": loff, "p": []}}}, "line": line, "inl": graw["id"]})
+                    nb["term"] = ({"t": "goto", "to": ret_to, "line": line, "exp": False} if ret_to is not None else {"t": "unreachable", "line": line, "exp": False})
+                if direct:
+                    _rename_local(nb, loff, dest["l"])
+                raw["blocks"].append(nb)
+            if direct and ret_to is not None:
+                raw.setdefault("joins", []).append([dest["l"], ret_to])
+            raw.setdefault("inlined", [])
+            for x in [graw["id"]] + list(graw.get("inlined", [])):
+                if x not in raw["inlined"]:
+                    raw["inlined"].append(x)
+            home.add(graw["id"])
+            record.setdefault(raw["id"], []).append(graw["id"])
 
 
 def _desugar_combinators(d, record, max_passes=6):
